@@ -227,3 +227,42 @@ mt("C07", "Lean theorems on every Orswot/MVReg read entry point: contexts are ex
 mt("C08", "Lean: the Orswot/MVReg/lattice representation theorems assume only per-actor order on adds (nothing for order-free types); pending removes characterised exactly and preserved by merge.")
 mt("C09", "Lean theorems dup_noop, stale_noop (generic) and no_resurrection (Orswot).")
 mt("C20", "Lean: equal knowledge => equal state (= Rust ==); no pending remove / empty entry / leftover witness once removes are caught up.")
+
+# --------------------------------------------------------------------------------------------
+# C14 / C13 (Identifier, GList, List)
+# --------------------------------------------------------------------------------------------
+PROPS["C14"] = dict(
+    lean_targets=["CrdtModel.Props.C14"], audit="CrdtModel/Audit/C14.lean",
+    required_theorems=["Crdt.C14." + t for t in ["cmp_eq_iff", "cmp_swap", "lt_trans", "lt_total", "between_strict", "between_comm", "between_after",
+                                                  "between_before", "between_value", "between_distinct_markers", "lt_low_nonempty", "after_empty_witness"]],
+    profiles=[dict(name="ident_table", quick=300, thorough=5000), dict(name="ident_random", quick=3000, thorough=60000)],
+    explanation="Identifier order is a lawful strict total order (prefix greater than extension, as in the Rust); between(lo,hi,m) strictly between for ALL lo<hi of any depth "
+                "(induction on the common prefix; rational midpoint facts by grind), one-sided bounds, argument-order independence, last marker = m. Correspondence: EXHAUSTIVE table of "
+                "all 157 identifiers of depth<=2 over 4 rationals x 3 markers (all pairs, all markers), random deeper identifiers with prefix-related / equal-rational siblings; the C14 predictions "
+                "(lo<r<hi, last marker) are printed as spec fields and compared with the implementation.",
+    statement_coverage="full statement proved (the empty identifier is the excluded input; what the code does there is stated: between_after_empty)",
+    assumptions=["marker type is a lawful total order", "BigRational arithmetic modelled by Lean's Rat"],
+)
+MANIFEST_TEXT["C14"] = dict(
+    text="Unbounded Lean theorems: Identifier comparison is a strict total order consistent with equality; for all identifiers lo < hi (any depth, any rationals/markers, prefix-related and "
+         "equal-rational siblings included) and every marker, lo < between(lo,hi,m) < hi; one-sided bounds strictly beyond; argument order irrelevant; result ends in the marker, so distinct markers never collide. "
+         "Model tied to the code by an exhaustive small-domain table plus random deep identifiers.",
+    note=NOTE, technique="Lean 4 proof (structural induction on identifier paths) + differential correspondence check", design_ref="DESIGN.md §7 C14")
+
+PROPS["C13"] = dict(
+    lean_targets=["CrdtModel.Props.C13"], audit="CrdtModel/Audit/C13.lean",
+    required_theorems=["Crdt.C13." + t for t in ["list_insert_index", "list_insert_index_read", "list_insert_index_not_gated", "list_delete_index", "list_delete_index_out_of_range",
+                                                  "list_ids_nonempty_reachable", "glist_insert", "glist_insert_after", "glist_insert_before", "glist_insert_panics"]],
+    profiles=[dict(name="list_hist", quick=800, thorough=15000), dict(name="glist_hist", quick=800, thorough=15000), dict(name="list_raw", quick=400, thorough=8000),
+              dict(name="glist_raw", quick=400, thorough=8000), dict(name="list_state", quick=2000, thorough=40000)],
+    explanation="For ANY List/GList state whose identifiers are non-empty (invariant proved for every state reachable by arbitrary ops): read after applying insert_index(i,x) = old read with x inserted at min(i,len); "
+                "delete_index(i) removes exactly the i-th; GList insert/insert_after/insert_before place x at / right after / right before; the op is never gated at its origin. "
+                "Correspondence: histories with remote ops (equal rationals, forked paths, deep identifiers), every G line carries the sequential-Vec prediction as a spec field compared with the implementation; "
+                "raw ops and deserialised states for the error branches (panics modelled explicitly).",
+    statement_coverage="full statement proved",
+    assumptions=["usize indices do not overflow", "element/actor types are lawful total orders"],
+)
+MANIFEST_TEXT["C13"] = dict(
+    text="Unbounded Lean theorems for every List/GList state with non-empty identifiers (an invariant of all reachable states): insert_index/delete_index/insert/insert_after/insert_before act exactly like the "
+         "corresponding Vec operation on read(); all other elements keep their order; the generated op is never gated at its origin. Uses C14 density. Model tied to the code by differential histories and deserialised states.",
+    note=NOTE, technique="Lean 4 proof (sorted-association-list insertion lemmas + identifier density) + differential correspondence check", design_ref="DESIGN.md §7 C13")
